@@ -117,7 +117,7 @@ func init() {
 		rep.Extra["builtin_only_paths"] = unmodelled
 		rep.Extra["advanced_only_paths"] = extraInAdv
 		rep.Extra["single_field_mutations"] = len(muts)
-		rep.Rule = fmt.Sprintf("bounded-exhaustive objects from a reflective generator over k8s.io/api/apps/v1.StatefulSet (depth %d): a populated base object with every reachable path set, one at a time, to each variant (leaf: two typical values and zero; pointer: nil / pointer to zero / populated; slice: nil / empty / 1 / 3 items; map: nil / empty / one entry), all pairs of mutations among the set-level fields (metadata.*, spec.*, status.* first level; thorough: second level too), and the same on an empty base object; slot sets = all subsets of {MinInt32,-1,0,1,2,MaxInt32}; annotation maps {nil, {}, other keys, pre-existing slots/pause}. Oracles: To(From(x)) semantically equals x with the built-in-only paths (computed by reflection) zeroed, apiVersion apps/v1, no error; list conversion keeps length and order; write/read through the hijack client on a fake keeps every value the input had; Set.Get = id, Add = union, empty removes the key, other annotations untouched, same for pause; edit histories through the hijack client (create with slots S1/pause P1, read, update to S2/P2 for all S1,S2 subsets of {0,1,2}: the update result, a fresh read and the stored Advanced object all say S2/P2 and an emptied slot set leaves no annotation); List through the client over an underlying list served in a fixed non-sorted order (length, order, list resourceVersion/continue, item types and content), UpdateStatus (every status field, slots untouched) and Patch (result equals the stored object); D(D(o)) = D(o) and re-submitting a read-back object leaves the template unchanged. Non-trivial = the mutated object differs from the base.", depth)
+		rep.Rule = fmt.Sprintf("bounded-exhaustive objects from a reflective generator over k8s.io/api/apps/v1.StatefulSet (depth %d): a populated base object with every reachable path set, one at a time, to each variant (leaf: two typical values and zero; pointer: nil / pointer to zero / populated; slice: nil / empty / 1 / 3 items; map: nil / empty / one entry), all pairs of mutations among the set-level fields (metadata.*, spec.*, status.* first level; thorough: second level too), and the same on an empty base object; slot sets = all subsets of {MinInt32,-1,0,1,2,MaxInt32}; annotation maps {nil, {}, other keys, pre-existing slots/pause}. Oracles: To(From(x)) semantically equals x with the built-in-only paths (computed by reflection) zeroed, apiVersion apps/v1, no error; list conversion keeps length and order; write/read through the hijack client on a fake keeps every value the input had; Set.Get = id, Add = union, empty removes the key, other annotations untouched, same for pause; edit histories through the hijack client (create with slots S1/pause P1, read, update to S2/P2 for all S1,S2 subsets of {0,1,2}: the update result, a fresh read and the stored Advanced object all say S2/P2 and an emptied slot set leaves no annotation); List through the client over an underlying list of 0..4, 63, 64, 65, 129 and 200 items (thorough: 1000) served in a fixed non-sorted order, the items differing in which fields they carry at all (length, order, list resourceVersion/continue, item types and content), UpdateStatus (every status field, slots untouched) and Patch (result equals the stored object); D(D(o)) = D(o) and re-submitting a read-back object leaves the template unchanged. Non-trivial = the mutated object differs from the base.", depth)
 		rep.Assumptions = []string{"fields the Advanced API models = JSON paths present in both Go types (computed by reflection over struct tags)", "timestamps are generated at second granularity (the API's own)", "the hijack client is exercised on client-go's stock fake object tracker"}
 		ctx := context.TODO()
 		var n int64
@@ -446,16 +446,32 @@ func init() {
 			var served *asv1.StatefulSetList
 			pc2.PrependReactor("list", "statefulsets", func(clienttesting.Action) (bool, runtime.Object, error) { return true, served.DeepCopy(), nil })
 			names := []string{"set-b", "set-a", "set-c", "set-a2"}
-			for ln := 0; ln <= len(names); ln++ {
+			lens := []int{0, 1, 2, 3, 4, 63, 64, 65, 129, 200}
+			if thorough {
+				lens = append(lens, 1000)
+			}
+			for _, ln := range lens {
 				for rot := 0; rot < 2; rot++ {
 					n++
 					served = &asv1.StatefulSetList{ListMeta: metav1.ListMeta{ResourceVersion: "42", Continue: "tok"}}
 					var want []*appsv1.StatefulSet
 					for i := 0; i < ln; i++ {
 						x := c19Base()
-						x.Name = names[(i+rot*2)%len(names)]
+						x.Name = fmt.Sprintf("%s-%d", names[(i+rot*2)%len(names)], i/len(names))
 						x.ResourceVersion = fmt.Sprint(10 + i)
 						helper.SetDeleteSlots(x, sets.NewInt32(int32(i)))
+						// items differ in what they have at all: later items lack what earlier ones carry
+						switch i % 4 {
+						case 1:
+							x.Annotations = nil
+							x.Spec.Replicas = nil
+						case 2:
+							x.Labels = nil
+							x.Spec.UpdateStrategy = appsv1.StatefulSetUpdateStrategy{}
+							x.Status = appsv1.StatefulSetStatus{}
+						case 3:
+							x.Spec.Template.Spec.Containers = append(x.Spec.Template.Spec.Containers, v1.Container{Name: "side", Image: "img2"})
+						}
 						a, _ := helper.FromBuiltinStatefulSet(x)
 						served.Items = append(served.Items, *a)
 						want = append(want, x)
